@@ -1,5 +1,5 @@
 import MuscleModel.Pulse.Ops
-import MuscleModel.Pulse.Proofs14
+import MuscleModel.Pulse.Proofs15
 
 /-!
 # C20 — Pulse callbacks fire for every due node and never before their time
@@ -352,8 +352,9 @@ theorem fires_every_due_node (never d k : Nat) (w w' : World) (root t : Nat) (ht
     answer is reported (spurious early wake-up, corrected in the next cycle; witness at the end of the file) — so the quiet
     discipline cannot simply be dropped; the exact boundary (e.g. "callbacks only lower the requests of nodes already
     recalculated") is not formalised.  The finite-height hypothesis is needed as stated (the invariant alone allows an infinite
-    descending chain whose aggregate is attained nowhere); that it holds in every reachable state (acyclicity as an invariant of
-    the operations) is not proved.  Validated on every undisturbed sweep of the correspondence run by the direct oracle. -/
+    descending chain whose aggregate is attained nowhere); it holds in every reachable state (`finite_height_reachable`: preserved
+    by every operation and both sweeps with arbitrary scripts, the `isAnc` guard of attach being sound for every depth), so
+    `wakeup_is_min_reachable` needs it no more, and `wakeup_is_min_first_sweep` needs neither it nor `Inv` nor `V`.  Validated on every undisturbed sweep of the correspondence run by the direct oracle. -/
 theorem wakeup_is_min_partial (never d k : Nat) (w w' : World) (root now m : Nat)
     (h : managerGpt never d (k+1) w root now = some (w', m)) :
     m ≤ (w'.f root).agg ∧
@@ -402,6 +403,110 @@ example : ((runOps 1000 8 40 (World.init 1000)
       fun w => managerGpt 1000 8 40 w 0 10).map
       (fun r => (r.2, (r.1.f 2).myTime, (r.1.f 2).parent, (r.1.f 1).parent, (r.1.f 0).myTime, (r.1.f 1).myTime)) =
     some (300, 300, some 1, some 0, 500, 400) := by decide +kernel
+
+/-! ### the finite-height hypothesis holds in every reachable state
+
+`Height f` = `∃ ht, ∀ c p, (f c).parent = some p → ht c < ht p` (exactly the `hfin` hypothesis above): the parent relation has
+finite height, in particular it is acyclic.  The only operation that adds a parent pointer is `attach` (`PutPulseChild`).  In the
+model — at top level (`applyOp`) and inside callbacks (`runAct`) — it is guarded by `isAnc d f c p`, which walks up from `p` with fuel
+`d` and answers `true` = "refuse" when it meets `c` OR RUNS OUT OF FUEL.  So the guard is sound for every depth
+(`isAnc_sound : isAnc d f a n = false → ¬ Desc f a n`): a deep tree can only make it refuse an attachment that would have been
+legal, never let a cycle in.  The C++ `PulseNode::PutPulseChild` itself has NO ancestor guard (only `MASSERT(child != this)`); closing a
+cycle there makes `ReschedulePulseChild` / `GetCycleStartTime` recurse for ever, so "the caller never attaches a node below itself" is a
+precondition of the API.  The harness enforces it with an unbounded walk over `GetPulseParent()` and prints `cycle`; the engine's
+fuel (64) exceeds the number of nodes (16), so both agree on every generated input. -/
+
+/-- the guard at work: attaching an ancestor below its own descendant is refused; with too little fuel (`d = 1`, chain of depth 2)
+    a LEGAL attachment is refused too — the conservative direction — while enough fuel accepts it -/
+example : ((runOps 1000 8 40 (World.init 1000) [.attach 1 0, .attach 2 1]).bind
+      fun w => applyOp 1000 8 40 w (.attach 0 2)).map (·.2) = some .cycle := by decide +kernel
+
+example : ((runOps 1000 8 40 (World.init 1000) [.attach 1 0, .attach 2 1]).bind
+      fun w => applyOp 1000 1 40 w (.attach 3 2)).map (·.2) = some .cycle := by decide +kernel
+
+example : ((runOps 1000 8 40 (World.init 1000) [.attach 1 0, .attach 2 1]).bind
+      fun w => applyOp 1000 8 40 w (.attach 3 2)).map (·.2) = some .ok := by decide +kernel
+
+/-- (a) the initial state has a height function (there are no parent pointers) -/
+theorem finite_height_init (never : Nat) : Height (World.init never).f :=
+  ⟨fun _ => 0, fun c p h => by simp [World.init, Node.fresh] at h⟩
+
+/-- (b) EVERY operation — attach, detach, destroy, invalidate, change of request, scripts, and both sweeps with whatever their
+    callback scripts do (attach / detach / invalidate from inside `GetPulseTime` and `Pulse`) — keeps the height finite -/
+theorem finite_height_preserved (never d k : Nat) (w w' : World) (r : Res) (o : Op) (hH : Height w.f)
+    (h : applyOp never d k w o = some (w', r)) : Height w'.f := by
+  cases o with
+  | attach c p =>
+    simp only [applyOp] at h
+    split at h
+    · cases h; exact hH
+    · rename_i hg
+      simp only [Option.map_eq_some_iff] at h
+      obtain ⟨f', hf, he⟩ := h; cases he
+      exact putChild_height never d w.f p c f' hH (isAnc_sound d w.f c p (by simpa using hg)) hf
+  | detach c =>
+    simp only [applyOp, Option.map_eq_some_iff] at h
+    obtain ⟨f', hf, he⟩ := h; cases he
+    exact hH.mono (detach_parSub never d w.f c f' hf)
+  | destroy c =>
+    simp only [applyOp, Option.map_eq_some_iff] at h
+    obtain ⟨f', hf, he⟩ := h; cases he
+    exact hH.mono (destroy_parSub never d w.f c f' hf)
+  | inval c clear =>
+    simp only [applyOp, Option.map_eq_some_iff] at h
+    obtain ⟨f', hf, he⟩ := h; cases he
+    exact hH.mono (parSub_of_eq (invalidate_parent never d w.f c clear f' hf))
+  | setReq c t => simp only [applyOp] at h; cases h; exact hH
+  | script g c acts => cases g <;> (simp only [applyOp] at h; cases h; exact hH)
+  | gpt root now =>
+    simp only [applyOp] at h
+    split at h
+    · cases h; exact hH
+    · simp only [Option.map_eq_some_iff] at h
+      obtain ⟨⟨w1, m⟩, hf, he⟩ := h; cases he
+      exact (gpt_height never d k).1 w _ root now never _ hH hf
+  | pulse root now =>
+    simp only [applyOp] at h
+    split at h
+    · cases h; exact hH
+    · simp only [Option.map_eq_some_iff] at h
+      obtain ⟨w1, hf, he⟩ := h; cases he
+      simp only [managerPulse] at hf
+      split at hf
+      · exact (pulse_height never d k).1 w _ root now hH hf
+      · cases hf; exact hH
+
+theorem finite_height_history (never d k : Nat) : ∀ (ops : List Op) (w w' : World), Height w.f →
+    runOps never d k w ops = some w' → Height w'.f := by
+  intro ops
+  induction ops with
+  | nil => intro w w' g h; simp [runOps] at h; subst h; exact g
+  | cons o r ih =>
+    intro w w' g h
+    simp only [runOps] at h
+    split at h
+    · rename_i w1 r1 h1
+      exact ih w1 w' (finite_height_preserved never d k w w1 r1 o g h1) h
+    · cases h
+
+/-- (c) every state reachable from the initial state by ANY history of operations has a parent relation of finite height -/
+theorem finite_height_reachable (never d k : Nat) (ops : List Op) (w : World)
+    (h : runOps never d k (World.init never) ops = some w) :
+    ∃ ht : Nat → Nat, ∀ c p, (w.f c).parent = some p → ht c < ht p :=
+  finite_height_history never d k ops _ w (finite_height_init never) h
+
+/-- `wakeup_is_min_quiet` in a reachable state: the finite-height hypothesis is discharged from reachability.  `Inv` and `V` stay
+    hypotheses here: they are proved for the initial state, every public operation and the pulse sweep (`inv_init`, `inv_preserved`,
+    `v_init`, `v_preserved`), but for a `gpt` operation of the history only under the discipline verdict of `managerGptC`
+    (`inv_preserved_gpt_sweep`, `all_asked_after_sweep`), which `applyOp` does not expose — see `wakeup_is_min_first_sweep` for
+    histories where they are discharged too. -/
+theorem wakeup_is_min_reachable (never d k k2 : Nat) (ops : List Op) (w w' : World) (root now m : Nat)
+    (hreach : runOps never d k (World.init never) ops = some w)
+    (h : managerGpt never d (k2+1) w root now = some (w', m)) (hi : Inv never w.f) (hV : V w.f) (hq : GQuiet w)
+    (hroot : (w.f root).parent = none) :
+    (∀ n, Desc w'.f root n → m ≤ (w'.f n).myTime) ∧
+    (m = never ∨ ∃ n, Desc w'.f root n ∧ (w'.f n).myTime = m) :=
+  wakeup_is_min_quiet never d k2 w w' root now m h hi hV hq hroot (finite_height_reachable never d k ops w hreach)
 
 /-- the asking rule of one node: `GetPulseTimeAux` asks every node it visits that has no standing request — first thing, passing
     the time the node requested before — and it returns from a node only when that node's NEEDSRECALC list is empty -/
@@ -499,6 +604,37 @@ theorem reasked (never d k k2 : Nat) (w w1 w2 : World) (root t now m : Nat)
   obtain ⟨id', s', he', _, hinv⟩ := hf _ hm
   cases he'
   exact ha id hinv (hall id hd)
+
+/-! ### the first sweep after a `gpt`-free history: no hypothesis about the state -/
+
+theorem inv_v_history_gptfree (never d k : Nat) : ∀ (ops : List Op) (w w' : World),
+    (∀ o ∈ ops, ∀ root now, o ≠ .gpt root now) → Inv never w.f → V w.f →
+    runOps never d k w ops = some w' → Inv never w'.f ∧ V w'.f := by
+  intro ops
+  induction ops with
+  | nil => intro w w' _ hi hv h; simp [runOps] at h; subst h; exact ⟨hi, hv⟩
+  | cons o r ih =>
+    intro w w' hg hi hv h
+    simp only [runOps] at h
+    split at h
+    · rename_i w1 r1 h1
+      have hgo := hg o (by simp)
+      exact ih w1 w' (fun o' ho' => hg o' (List.mem_cons_of_mem _ ho'))
+        (inv_preserved never d k w w1 r1 o hgo hi h1) (v_preserved never d k w w1 r1 o hgo hv h1) h
+    · cases h
+
+/-- the FIRST recalculation sweep after any history of attach / detach / destroy / invalidate / change of request / script / pulse
+    operations: no hypothesis about the state is left — only that the queued `GetPulseTime` scripts change requests only and that the
+    swept node is a root.  The reported wake-up time is the minimum of the requested times of the attached nodes (`never` if none). -/
+theorem wakeup_is_min_first_sweep (never d k k2 : Nat) (ops : List Op) (w w' : World) (root now m : Nat)
+    (hg : ∀ o ∈ ops, ∀ r n, o ≠ .gpt r n)
+    (hreach : runOps never d k (World.init never) ops = some w)
+    (h : managerGpt never d (k2+1) w root now = some (w', m)) (hq : GQuiet w)
+    (hroot : (w.f root).parent = none) :
+    (∀ n, Desc w'.f root n → m ≤ (w'.f n).myTime) ∧
+    (m = never ∨ ∃ n, Desc w'.f root n ∧ (w'.f n).myTime = m) := by
+  obtain ⟨hi, hv⟩ := inv_v_history_gptfree never d k ops _ w hg (inv_init never) (v_init never) hreach
+  exact wakeup_is_min_reachable never d k k2 ops w w' root now m hreach h hi hv hq hroot
 
 /-! ## The repaired `GetPulseTimeAux` (finding `C20-lost-invalidate`, fixed)
 
